@@ -86,3 +86,17 @@ package dsstate
 //@   loop 1 (for)
 //@     invariant forall k ds.Key :: in(k, written) ==> inNS(st, k)
 //@   modifies dstore, written, putN, heap(serialEntry)
+
+// ---- C02: "commit failures in the middle of a batch": the batch worker keeps a batch pending only if it learns
+// that committing it failed ----
+//@ ghost var batchCommitN int
+//@ ghost var batchCommitOK int
+//@ extern ds.Batch.Commit()
+//@   counts batchCommitN when true
+//@   counts batchCommitOK when err == nil
+
+//@ func (bst *BatchingState) Commit
+//@   property C02
+//@   ensures [one-commit-attempt] batchCommitN == old(batchCommitN) + 1
+//@   ensures [failure-is-reported] err == nil <==> batchCommitOK == old(batchCommitOK) + 1
+//@   modifies batchCommitN, batchCommitOK
